@@ -9,6 +9,7 @@ import (
 	"time"
 
 	"github.com/openconfig/gribigo/server"
+	"google.golang.org/grpc/status"
 	"google.golang.org/protobuf/proto"
 
 	spb "github.com/openconfig/gribi/v1/proto/service"
@@ -26,6 +27,8 @@ type proxy struct {
 	// onFlush may rewrite the request or answer directly.
 	onFlush func(in *spb.FlushRequest) (*spb.FlushRequest, *spb.FlushResponse)
 
+	// onErr may rewrite the status a Modify RPC ends with.
+	onErr func(error) error
 	// eofDelay: the server learns of a client's half-close this much later (a conformant
 	// server that is slow to tear a session down).
 	eofDelay time.Duration
@@ -105,7 +108,11 @@ func (p *proxy) Modify(ms spb.GRIBI_ModifyServer) error {
 		}
 		p.mu.Unlock()
 	}()
-	return p.inner.Modify(&wrapStream{GRIBI_ModifyServer: ms, st: st})
+	err := p.inner.Modify(&wrapStream{GRIBI_ModifyServer: ms, st: st})
+	if err != nil && p.onErr != nil {
+		err = p.onErr(err)
+	}
+	return err
 }
 
 type getCollector struct {
@@ -505,6 +512,24 @@ var faults = []fault{
 		},
 		expect:  []string{"Election - Ensure client with differing parameters is rejected", "Election - Ensure that a client with mismatched parameters is rejected", "Modify RPC Connection with invalid persist/redundancy parameters"},
 		control: []string{"Modify RPC connection", "Add IPv4 entry that can be programmed on the server - with RIB ACK"},
+	},
+	{
+		name: "omits-error-reason", what: "ends a Modify RPC that violates the protocol with the right status code but without the ModifyRPCErrorDetails reason",
+		wrap: func(in *server.Server) spb.GRIBIServer {
+			p := &proxy{inner: in}
+			p.onErr = func(err error) error {
+				st, ok := status.FromError(err)
+				if !ok || len(st.Details()) == 0 {
+					return err
+				}
+				return status.New(st.Code(), st.Message()).Err()
+			}
+			return p
+		},
+		// ("Election - Ensure client with differing parameters is rejected" sends ALL_PRIMARY, which the
+		// reference server answers with Unimplemented - accepted by that test whatever the details)
+		expect:  []string{"Election - Ensure that a client with mismatched parameters is rejected", "Modify RPC Connection with invalid persist/redundancy parameters"},
+		control: ctlBasic,
 	},
 	{
 		name: "leaks-results-to-other-clients", what: "sends the results of one client's operations to every connected client",
